@@ -128,7 +128,7 @@ def validate_trace(path, prop, cfg="Trace.cfg", module="ArimaaTrace.tla", timeou
     shutil.rmtree(meta, ignore_errors=True)
     os.makedirs(meta, exist_ok=True)
     cmd = java_cmd(xmx) + ["-workers", "1", "-metadir", meta, "-cleanup", "-noGenerateSpecTE", "-nowarning",
-                           "-config", cfg, module]
+                           "-maxSetSize", "8000000", "-config", cfg, module]
     e = {"TRACE": path, "PROP": prop}
     if env:
         e.update(env)
